@@ -85,6 +85,9 @@ Definition s_op (o : opn) (qs : list (Z * Z)) : res :=
   | OBit b, _ => if ints then RVal (canon_int (fold_left (bit_z b) (map fst qs) (bit_unit b)))
                  else RCond CType
   | OLognot, [a] => if snd a =? 1 then RVal (canon_int (Z.lnot (fst a))) else RCond CType
+  (* isqrt: the integer root of a natural number; a negative integer is an arithmetic-error in slip
+     (CLHS: type-error; slip's own test pins the class), other operands are not covered *)
+  | OIsqrt, [(n, 1)] => if n <? 0 then RCond CArith else RVal (canon_int (Z.sqrt n))
   | OExt mx, a :: rest =>      (* the largest / smallest of the exact values, in canonical form *)
       let t := fold_left (fun x y => if (if mx then qlt x y else qlt y x) then y else x) rest a in
       RVal (canon (fst t) (snd t))
@@ -175,6 +178,12 @@ Definition in_domain (o : opn) (args : list val) : bool :=
                             | [] => false end
   (* gcd lcm: any integers in any representation *)
   | OGcd | OLcm => all_int args
+  (* isqrt: every fixnum, negative bignum objects (arithmetic-error) and bignum objects whose root does not
+     fit in 64 bits (the root of a bignum is always a bignum object) *)
+  | OIsqrt => match args with
+              | [VFix z] => in64 z
+              | [VBig z] => (z <? 0) || negb (in64 (Z.sqrt z))
+              | _ => false end
   end.
 
 (* ---- a second, wider domain for the rounding divisions: operands of any representation the
@@ -207,6 +216,7 @@ Definition value_domain (o : opn) (args : list val) : bool :=
   | ORound _ => round_value_domain args
   | OMod | ORem => modrem_value_domain args
   | OBit _ => all_int args
+  | OIsqrt => match args with [VBig z] => 0 <=? z | _ => false end
   | _ => false
   end.
 
